@@ -106,10 +106,12 @@ def _aggregate_battery_power_bounds(
     assert len(battery_metrics) > 0, "No batteries given."
 
     # Calculate the aggregated bounds for the set of batteries
-    power_inclusion_upper_bound = sum(
+    # (`math.fsum` is exactly rounded, so the result doesn't depend on the order of
+    # the batteries, and the pool and the distributor get the same bounds.)
+    power_inclusion_upper_bound = math.fsum(
         bounds.inclusion_upper for bounds in battery_metrics
     )
-    power_inclusion_lower_bound = sum(
+    power_inclusion_lower_bound = math.fsum(
         bounds.inclusion_lower for bounds in battery_metrics
     )
 
